@@ -1985,6 +1985,22 @@ class ReferenceManager:
             if spec:
                 self._manager.del_spec(spec)
 
+    def del_space_refs(self, impl):
+        """Forget the references defined in a space being deleted"""
+        for ref in impl.own_refs.values():
+            val = ref.interface
+            refs = self._valid_to_refs.get(id(val))
+            if refs and any(ref is r for r in refs):
+                refs.remove(ref)
+                if not refs:
+                    del self._valid_to_refs[id(val)]
+                    spec = self._manager.get_spec_from_value(
+                        io_group=self._model.interface,
+                        value=val
+                    )
+                    if spec:
+                        self._manager.del_spec(spec)
+
     def del_all_spec(self):
         specs = self.specs.copy()
         while specs:
